@@ -227,6 +227,7 @@ func sections() []h.Section {
 		{Name: "hpke-encapsulation", Body: hpkeSection, Bound: -1},
 		{Name: "ecies-ephemeral", Body: eciesSection, Bound: -1},
 		{Name: "key-ids", Body: keyIDSection, Bound: -1},
+		{Name: "key-ids-imported-manager", Body: keyIDImportedSection, Bound: -1},
 		{Name: "key-generation", Body: keygenSection, Bound: -1},
 		{Name: "signatures", Body: signSection, Bound: -1},
 	}
